@@ -440,6 +440,16 @@ def _mirsym():
         stubs=["capnp generated accessors (set_/get_/init_/which, list builders/readers) -> record model driven by locustdb-serialization/schemas/partition_segment.capnp", "capnp::serialize_packed::{write_message,read_message} -> identity on the record tree", "Column::new -> recorder"],
         assumptions=["capnpc-generated accessors and the capnp runtime implement the record semantics of vlib/mirsym/capnp_model.py (init_x allocates a fresh zeroed value and selects the union member, set_x stores and selects, get_x reads what was stored or the schema default, which() reports the member selected last); serialize_packed is lossless"])
 
+    from .specs import walcodec as swc
+    for pid, tag in (("C14", "C14.c"), ("C16", "C16.e")):
+        add(f"{tag}/event_buffer_roundtrip", pid, "mirsym", Q,
+            "EventBuffer::serialize then EventBuffer::deserialize (the binary ingestion message, also the payload of every write-ahead log segment) reproduce every table (name, row count) and every column in each representation: dense f64, sparse f64, dense i64, sparse i64, strings, empty, mixed (Int / Float / Str / Null values)",
+            ["locustdb_serialization::event_buffer::EventBuffer::{serialize,serialize_builder,deserialize,deserialize_reader} (+ closures)"],
+            bounds="6 (quick) / 7 (thorough) buffer shapes: 1-2 tables, 0-2 columns per table, 1-4 entries per column, every ColumnData variant and every AnyVal variant; values, sparse row indices and string bytes symbolic; capnp runtime + generated accessors modelled from schemas/wal_segment.capnp; HashMap<String,_> as an association list in insertion order",
+            spec=swc.EventBufferCodecSpec(),
+            stubs=["capnp generated accessors -> record model driven by locustdb-serialization/schemas/wal_segment.capnp", "capnp::serialize_packed::{write_message,read_message} -> identity on the record tree", "HashMap<String,V> -> association list"],
+            assumptions=["capnpc-generated accessors and the capnp runtime implement the record semantics of vlib/mirsym/capnp_model.py; serialize_packed is lossless"])
+
 
 _mirsym()
 
